@@ -103,12 +103,17 @@ class Ctx:
             sh("coq_makefile -f _CoqProject -o Makefile", cwd=COQ, check=True)
 
     def coq_make(self, targets, timeout=1500):
-        """full .vo build of the given targets (paths relative to coq/)"""
-        self.coq_prepare()
-        # one make at a time in coq/ (several checks may run concurrently)
+        """full .vo build of the given targets (paths relative to coq/); one build at a time in coq/
+        (several checks may run concurrently)"""
+        import fcntl
         os.makedirs(WORK, exist_ok=True)
-        rc, out, dt = sh(["flock", os.path.join(WORK, "coq.lock"), "timeout", str(timeout), "make", "-j", NPROC] + targets,
-                         cwd=COQ, timeout=2 * timeout + 30)
+        with open(os.path.join(WORK, "coq.lock"), "w") as lk:
+            fcntl.flock(lk, fcntl.LOCK_EX)
+            try:
+                self.coq_prepare()
+                rc, out, dt = sh(["timeout", str(timeout), "make", "-j", NPROC] + targets, cwd=COQ, timeout=timeout + 30)
+            finally:
+                fcntl.flock(lk, fcntl.LOCK_UN)
         return rc, out
 
     def coq_gate(self, files):
@@ -194,7 +199,15 @@ class Ctx:
         if not os.path.exists(dst) or open(src).read() != open(dst).read():
             shutil.copy(src, dst)
         exe = os.path.join(BIN, "vh_" + cmd)
-        rc, out, dt = sh(["go", "build", "-tags", "verif", "-o", exe, "./cmd/" + cmd], cwd=h, timeout=1500)
+        extra = []
+        if os.path.realpath(REPO) != "/repo":
+            # development aid: build against another checkout (VERIF_REPO) through an alternative go.mod
+            alt = os.path.join(self.work, "alt.mod")
+            open(alt, "w").write(open(os.path.join(h, "go.mod")).read().replace("=> /repo", "=> " + os.path.realpath(REPO)))
+            shutil.copy(src, os.path.join(self.work, "alt.sum"))
+            extra = ["-modfile=" + alt]
+            exe = os.path.join(self.work, "vh_" + cmd)
+        rc, out, dt = sh(["go", "build", "-tags", "verif"] + extra + ["-o", exe, "./cmd/" + cmd], cwd=h, timeout=1500)
         if rc != 0:
             return None, out
         return exe, out
@@ -370,15 +383,26 @@ _kf = None
 
 
 def known_findings(prop=None):
+    """known_findings.jsonl (committed; never written at run time) + findings/*.jsonl (per-property files)"""
     global _kf
     if _kf is None:
         _kf = []
-        p = os.path.join(ROOT, "known_findings.jsonl")
-        if os.path.exists(p):
+        files = [os.path.join(ROOT, "known_findings.jsonl")]
+        fd = os.path.join(ROOT, "findings")
+        if os.path.isdir(fd):
+            files += [os.path.join(fd, f) for f in sorted(os.listdir(fd)) if f.endswith(".jsonl")]
+        seen = set()
+        for p in files:
+            if not os.path.exists(p):
+                continue
             for ln in open(p):
                 ln = ln.strip()
                 if ln and not ln.startswith("#"):
-                    _kf.append(json.loads(ln))
+                    k = json.loads(ln)
+                    if k.get("id") in seen:
+                        continue
+                    seen.add(k.get("id"))
+                    _kf.append(k)
     return [k for k in _kf if prop is None or k["property"] == prop]
 
 
